@@ -3,13 +3,13 @@ import Rivaas.Spec.OpenAPI
 /-
 Driver for C07. Case line:
 
-  <id> <30|31> <strict> <nenv> ENV* <nops> OP*  =>  OFF ON <metaValid> <refsResolve> <stable> <validatorAgrees> <served> <coldStart> <dataIntact>
+  <id> <30|31> <strict> <nenv> ENV* <nops> OP* <nservers> <url>*  =>  OFF ON <metaValid> <refsResolve> <stable> <validatorAgrees> <served> <coldStart> <dataIntact>
 
   ENV := <tid> S <name> <pkgPath> <n> FIELD*  |  <tid> A TY
   FIELD := F <name> <exported> <json> <validate> <query> <path> <header> <cookie> <default> <style> <explode> <typeIs> TY | E <tid>
   TY := P <kind> | T | Ptr TY | Sl TY | Ar TY | Mp <0|1> TY | N <tid>
   OP := <method> <path> <summary> <description> <opID> (0 | 1 TY) <nresp> { <status> <statusText> (0 | 1 TY) }*
-        <ntags> <tag>* <deprecated> <nsec> { <scheme> <nscopes> <scope>* }*
+        <ntags> <tag>* <deprecated> <nsec> { <scheme> <nscopes> <scope>* }* <nconsumes> <ct>* <nproduces> <ct>*
   OFF := CP (an operation constructor panicked: invalid path) | P (Generate panicked) | E <class> | D JSON
   ON  := CP | P | E <class> | S (same bytes as OFF's document) | X (a different document)
   JSON := O <n> {<key> JSON}* | A <n> JSON* | S <str> | N <str> | T | F | Z
@@ -130,13 +130,16 @@ def pOp : M OpIn := do
   let tags ← pList pStr
   let deprecated ← pBool
   let security ← pList (do let sc ← pStr; let scopes ← pList pStr; pure (sc, scopes))
-  pure { method, path, summary, description, opID, req, resps, tags, deprecated, security }
+  let consumes ← pList pStr
+  let produces ← pList pStr
+  pure { method, path, summary, description, opID, req, resps, tags, deprecated, security, consumes, produces }
 
 structure Input where
   v : Version
   strict : Bool
   env : Env
   ops : List OpIn
+  servers : List B      -- configured server urls ([] = none configured)
 
 def pInput : M Input := do
   let vt ← tk
@@ -144,7 +147,8 @@ def pInput : M Input := do
   let strict ← pBool
   let env ← pList pEnvEntry
   let ops ← pList pOp
-  pure { v, strict, env, ops }
+  let servers ← pList pStr
+  pure { v, strict, env, ops, servers }
 
 /-! ## reading the produced JSON strictly into `Doc Schema` -/
 
@@ -240,18 +244,17 @@ partial def pSchema : M Schema := do
     if acc.attrs.isEmpty then pure (.ref r) else fail "a $ref schema with sibling members"
   | none => pure (.node acc.attrs acc.items acc.props acc.addl)
 
-/-- `{"application/json": {"schema": …}}` -/
-def pContent : M (Option Schema) := do
+/-- `{<media type>: {"schema": …}}` — exactly one media type; returns its key and schema -/
+def pContent : M (Option (B × Schema)) := do
   pObj none fun ct acc => do
-    if ct ≠ s "application/json" then fail "unexpected media type"
-    else if acc.isSome then fail "two media types"
+    if acc.isSome then fail "two media types"
     else
       let sch ← pObj (none : Option Schema) fun k a => do
         if k = s "schema" then do let t ← pSchema; pure (some t)
         else if k = s "example" ∨ k = s "examples" then do pSkip; pure a
         else fail s!"unknown media type member {String.ofList k}"
       match sch with
-      | some t => pure (some t)
+      | some t => pure (some (ct, t))
       | none => fail "media type without schema"
 
 structure ParamAcc where
@@ -277,13 +280,17 @@ def pParam : M (Param Schema) := do
 
 def insertRespD (x : Resp Schema) : List (Resp Schema) → List (Resp Schema) := insertResp x
 
-def pResponses : M (List (Resp Schema)) :=
-  pObj [] fun code acc => do
-    let r ← pObj (([] : B), (none : Option Schema)) fun k a => do
+/-- responses, and the media type key of those that have content (all must use the same one) -/
+def pResponses : M (List (Resp Schema) × B) :=
+  pObj ([], []) fun code acc => do
+    let r ← pObj (([] : B), (none : Option (B × Schema))) fun k a => do
       if k = s "description" then do let v ← pJStr; pure (v, a.2)
       else if k = s "content" then do let c ← pContent; pure (a.1, c)
       else fail s!"unknown response member {String.ofList k}"
-    pure (insertResp { code := code, description := r.1, schema := r.2 } acc)
+    let ct ← match r.2 with
+      | some (c, _) => if acc.2 = [] ∨ acc.2 = c then pure c else fail "responses with different media types"
+      | none => pure acc.2
+    pure (insertResp { code := code, description := r.1, schema := r.2.map (·.2) } acc.1, ct)
 
 def pOperation : M (Operation Schema) := do
   let init : Operation Schema := { opId := [], summary := [], description := [], params := [], body := none, resps := [] }
@@ -303,15 +310,17 @@ def pOperation : M (Operation Schema) := do
         | _ => fail "a security requirement with other than one scheme")
       pure { o with security := v }
     else if k = s "parameters" then do let v ← pJArr pParam; pure { o with params := v }
-    else if k = s "responses" then do let v ← pResponses; pure { o with resps := v }
+    else if k = s "responses" then do
+      let v ← pResponses
+      pure { o with resps := v.1, respCT := v.2 }
     else if k = s "requestBody" then do
-      let r ← pObj (false, (none : Option Schema)) fun kk a => do
+      let r ← pObj (false, (none : Option (B × Schema))) fun kk a => do
         if kk = s "required" then do let v ← pJBool; pure (v, a.2)
         else if kk = s "content" then do let c ← pContent; pure (a.1, c)
         else fail s!"unknown requestBody member {String.ofList kk}"
       if !r.1 then fail "requestBody not required"
       match r.2 with
-      | some sch => pure { o with body := some sch }
+      | some (ct, sch) => pure { o with body := some sch, reqCT := ct }
       | none => fail "requestBody without content"
     else if isExtKey k then do pSkip; pure o
     else fail s!"unknown operation member {String.ofList k}"
@@ -338,12 +347,17 @@ def pDoc : M (Doc Schema) := do
         if kk = s "title" then do let _ ← pJStr; pure (true, a.2)
         else if kk = s "version" then do let _ ← pJStr; pure (a.1, true)
         else if isExtKey kk then do pSkip; pure a
+        -- API-level configuration objects: compared by the harness (`configIntact`)
+        else if kk = s "description" ∨ kk = s "termsOfService" ∨ kk = s "contact" ∨ kk = s "license" ∨ kk = s "summary" then do
+          pSkip; pure a
         else fail s!"unknown info member {String.ofList kk}"
       if r.1 && r.2 then pure { d with info := true } else fail "info without title/version"
     else if k = s "servers" then do
       let v ← pJArr (do
-        let u ← pObj (none : Option B) fun kk _ => do
-          if kk = s "url" then do let x ← pJStr; pure (some x) else fail "unknown server member"
+        let u ← pObj (none : Option B) fun kk acc => do
+          if kk = s "url" then do let x ← pJStr; pure (some x)
+          else if kk = s "description" then do pSkip; pure acc
+          else fail "unknown server member"
         match u with
         | some x => pure x
         | none => fail "server without url")
@@ -359,9 +373,11 @@ def pDoc : M (Doc Schema) := do
           pObj acc fun name a => do
             let t ← pSchema
             pure (insertKey (name, t) a)
+        else if kk = s "securitySchemes" then do pSkip; pure acc     -- configuration: compared by the harness
         else fail s!"unknown components member {String.ofList kk}"
       pure { d with schemas := v }
     else if isExtKey k then do pSkip; pure d
+    else if k = s "externalDocs" ∨ k = s "tags" ∨ k = s "security" then do pSkip; pure d   -- configuration (harness)
     else fail s!"unknown document member {String.ofList k}"
   if !acc.info then fail "document without info"
   pure { openapi := acc.openapi, dialect := acc.dialect, servers := acc.servers, paths := acc.paths, schemas := acc.schemas }
@@ -449,6 +465,8 @@ def diffOperation (path : String) (m i : Operation Schema) : Option String :=
   else if m.tags ≠ i.tags then some s!"{path}: tags {m.tags.map String.ofList} vs {i.tags.map String.ofList}"
   else if m.deprecated ≠ i.deprecated then some s!"{path}: deprecated"
   else if m.security ≠ i.security then some s!"{path}: security"
+  else if m.reqCT ≠ i.reqCT then some s!"{path}: request media type {String.ofList m.reqCT} vs {String.ofList i.reqCT}"
+  else if m.respCT ≠ i.respCT then some s!"{path}: response media type {String.ofList m.respCT} vs {String.ofList i.respCT}"
   else
     (diffList (path ++ "/parameters") (fun p a b =>
       if a.style ≠ b.style ∨ a.explode ≠ b.explode then
@@ -528,7 +546,9 @@ def step (line : String) : String :=
             if !pathsValid then (match off with | .ctorPanic => (true, "") | _ => (false, "model:ctor-panic"))
             else match mOff, off with
               | .error e, .err c => (errName e == c, s!"model:E_{errName e}")
-              | .ok md, .doc d => (match diffDoc md d with | none => (true, "") | some w => (false, "diff:" ++ clean w))
+              | .ok md0, .doc d =>
+                let md := if x.servers.isEmpty then md0 else { md0 with servers := x.servers }
+                (match diffDoc md d with | none => (true, "") | some w => (false, "diff:" ++ clean w))
               | .error e, _ => (false, s!"model:E_{errName e}")
               | .ok _, .unparsed w => (false, "unparsed:" ++ clean w)
               | .ok _, _ => (false, "model:doc")
@@ -547,7 +567,10 @@ def step (line : String) : String :=
             | .doc d =>
               docOK x.v x.ops d && metaValid && refsResolve && stable && served && coldStart &&
               (match on with | .same => true | _ => false)   -- validation must not reject (or change) a valid document
-            | .unparsed _ => true                   -- correspondence broken, not (yet) a property violation
+            | .unparsed _ =>                        -- the document could not be read: the oracle's Lean part cannot be
+              -- evaluated (correspondence broken), what the harness observed on the raw JSON still counts
+              metaValid && refsResolve && stable && served && coldStart &&
+              (match on with | .same => true | _ => false)
             | _ => false
           -- which clause of S failed (for the reader of a replay file)
           let failing : String := match off with
@@ -560,6 +583,11 @@ def step (line : String) : String :=
                 (if served then [] else ["served"]) ++ (if coldStart then [] else ["coldStart"]) ++
                 (match on with | .same => [] | _ => ["validationOn"]))
             | .panic => "panic"
+            | .unparsed _ =>
+              String.intercalate "," (
+                (if metaValid then [] else ["metaValid"]) ++ (if refsResolve then [] else ["refsResolve"]) ++
+                (if stable then [] else ["stable"]) ++ (if served then [] else ["served"]) ++
+                (if coldStart then [] else ["coldStart"]) ++ (match on with | .same => [] | _ => ["validationOn"]))
             | _ => ""
           let detail0 := if miOff then (if miOn then (if validatorAgrees then (if dataIntact then "ok" else "data-changed") else "validator-disagrees") else "on-mismatch") else why
           let detail := if sOK then detail0 else detail0 ++ " failed:" ++ failing
